@@ -15,7 +15,7 @@
 From Verif.Base Require Import Bytes PathClean.
 From Verif.Gen Require Import GenConsts.
 From Verif.Module Require Import Path.
-From Verif.Zip Require Import Check Fs Unzip ProofsPath ProofsColl ProofsZip ProofsUnzip.
+From Verif.Zip Require Import Check Fs Unzip ProofsPath ProofsColl ProofsZip ProofsUnzip ProofsUnzipTree.
 
 (* If the zip check rejects the archive, Unzip fails and performs no file-system write. *)
 Theorem C12_unzip_validates_before_writing :
@@ -86,3 +86,64 @@ Theorem C12_check_zip_no_fuel :
   forall mp mv zipsize es, c_fuel (fst (check_zip mp mv zipsize es)) = false.
 Proof. exact check_zip_no_fuel. Qed.
 Print Assumptions C12_check_zip_no_fuel.
+
+(* For a clean absolute target directory that is absent or empty (nothing exists below it;
+   os.ReadDir reports no entries) and whose creation by MkdirAll is possible, extraction
+   succeeds exactly when the zip check accepts the archive and every file entry's content has
+   the size its header declares. *)
+Theorem C12_unzip_ok_iff :
+  forall (s : fs) (dir mp mv : str) (zipsize : Z) (es : list entry),
+    (exists ds, ds <> [] /\ Forall good_elem ds /\ dir = abs_path ds) ->
+    (forall q, (exists rest, rest <> [] /\ q = dir ++ 47 :: rest) -> fs_lookup s q = None) ->
+    fs_has_children s dir = false ->
+    (exists evs0, mkdir_all (length dir) s dir = MkOk evs0) ->
+    ((exists evs, unzip s dir mp mv zipsize es = (UzOk, evs)) <->
+     ((exists cf, check_zip mp mv zipsize es = (cf, None)) /\
+      Forall (fun e => len (e_content e) = e_usize e) (file_entries (zip_prefix mp mv) es))).
+Proof. exact unzip_ok_iff. Qed.
+Print Assumptions C12_unzip_ok_iff.
+
+(* On success the extracted tree equals the entries: dir is a directory; every file entry
+   (prefix stripped) is a file below dir with the entry's content; every file below dir is such
+   an entry; the directories below dir are exactly the proper ancestors of file entries
+   (directory entries of the archive create nothing). *)
+Theorem C12_unzip_tree_is_entries :
+  forall (s : fs) (dir mp mv : str) (zipsize : Z) (es : list entry) (evs : list event),
+    (exists ds, ds <> [] /\ Forall good_elem ds /\ dir = abs_path ds) ->
+    (forall q, (exists rest, rest <> [] /\ q = dir ++ 47 :: rest) -> fs_lookup s q = None) ->
+    fs_has_children s dir = false ->
+    (exists evs0, mkdir_all (length dir) s dir = MkOk evs0) ->
+    unzip s dir mp mv zipsize es = (UzOk, evs) ->
+    let prefix := zip_prefix mp mv in
+    let s' := apply_events s evs in
+    fs_lookup s' dir = Some FDir /\
+    (forall e, In e (file_entries prefix es) ->
+       fs_lookup s' (dir ++ 47 :: entry_rest prefix e) = Some (FFile (e_content e))) /\
+    (forall q c, (exists rest, rest <> [] /\ q = dir ++ 47 :: rest) -> fs_lookup s' q = Some (FFile c) ->
+       exists e, In e (file_entries prefix es) /\ q = dir ++ 47 :: entry_rest prefix e /\ c = e_content e) /\
+    (forall q, (exists rest, rest <> [] /\ q = dir ++ 47 :: rest) -> fs_lookup s' q = Some FDir ->
+       exists e a b, In e (file_entries prefix es) /\ split_on 47 (entry_rest prefix e) = a ++ b /\
+                     a <> [] /\ b <> [] /\ q = dir ++ 47 :: join_slash a) /\
+    (forall e a b, In e (file_entries prefix es) -> split_on 47 (entry_rest prefix e) = a ++ b ->
+       a <> [] -> b <> [] -> fs_lookup s' (dir ++ 47 :: join_slash a) = Some FDir).
+Proof. exact unzip_tree_is_entries. Qed.
+Print Assumptions C12_unzip_tree_is_entries.
+
+(* non-vacuity of the hypotheses: an empty file system with only the root *)
+Example C12_hypotheses_satisfiable :
+  let s : fs := [(B "/", FDir)] in
+  let dir := B "/w/t" in
+  (exists ds, ds <> [] /\ Forall good_elem ds /\ dir = abs_path ds) /\
+  fs_has_children s dir = false /\
+  (exists evs0, mkdir_all (length dir) s dir = MkOk evs0) /\
+  fst (unzip s dir (B "example.com/m") (B "v1.0.0") 100
+         [mkEntry (B "example.com/m@v1.0.0/go.mod") 3 (B "abc") 0;
+          mkEntry (B "example.com/m@v1.0.0/a/b.go") 2 (B "xy") 0]) = UzOk.
+Proof.
+  cbn zeta. split; [|split; [|split]].
+  - exists [B "w"; B "t"]. split; [discriminate|]. split; [|reflexivity].
+    repeat constructor; try discriminate; intros H; cbn in H; intuition discriminate.
+  - vm_compute. reflexivity.
+  - eexists. vm_compute. reflexivity.
+  - vm_compute. reflexivity.
+Qed.
